@@ -24,6 +24,8 @@ try:
     env = dict(os.environ, PYTHONPATH=repo, PANOPTICA_CITATION_REMINDER="false")
     os.makedirs(repo + "/out")
     shutil.copy(demo, repo + f"/out/{var}_demo.py")
+    _t = open(repo + f"/out/{var}_demo.py").read().replace(f"{BASE}/{prop}/", "/").replace(f"{BASE}/{prop}", "/")  # demos may assert their own worktree path
+    open(repo + f"/out/{var}_demo.py", "w").write(_t)
     ap = subprocess.run(["git", "-C", repo, "apply", patch], capture_output=True, text=True)
     if ap.returncode != 0:
         sys.exit("patch does not apply: " + ap.stderr)
